@@ -1278,6 +1278,42 @@ pub fn generate(seed: u64, cases: usize, out: &mut Vec<String>) {
                     None => false,
                 })
             };
+            // every accepted text, modelled or not: the eight switch sets must agree with each other
+            // on the real engine (C09's own wording; needs no model of the query)
+            // (plans in which a column name occurs twice are the open finding C09-pushdown-join-duplicate-column:
+            // the planner resolves such a name to different columns in different operators)
+            let no_duplicate_names = {
+                fn ok(op: &LogicalOperator) -> bool {
+                    use LogicalOperator as O;
+                    let here = match columns(op) {
+                        Some(cs) => {
+                            let mut d = cs.clone();
+                            d.sort();
+                            d.dedup();
+                            d.len() == cs.len()
+                        }
+                        None => true,
+                    };
+                    here && match op {
+                        O::NodeScan(s) => s.input.as_ref().map_or(true, |i| ok(i)),
+                        O::Expand(e) => ok(&e.input),
+                        O::Filter(x) => ok(&x.input),
+                        O::Project(x) => ok(&x.input),
+                        O::Return(x) => ok(&x.input),
+                        O::Limit(x) => ok(&x.input),
+                        O::Skip(x) => ok(&x.input),
+                        O::Sort(x) => ok(&x.input),
+                        O::Distinct(x) => ok(&x.input),
+                        O::Aggregate(x) => ok(&x.input),
+                        O::Join(j) => ok(&j.left) && ok(&j.right),
+                        _ => true,
+                    }
+                }
+                ok(&plan.root)
+            };
+            if nodes.len() <= 6 && no_duplicate_names {
+                out.push(format!("plan masks {} {} {}", nodes_arg(&nodes), edges_arg(&edges), src));
+            }
             if rows_fragment(&plan.root, true) && distinct_cols(&plan.root) && nodes.len() <= 6 {
                 for mask in 0..8 {
                     out.push(format!("plan rows {} {} {} {} {}", nodes_arg(&nodes), edges_arg(&edges), mask, src, sx));
@@ -1341,6 +1377,24 @@ pub fn run(args: &[&str]) -> String {
                 };
                 let store = crate::opt::build_store(&parse_nodes(nodes), &parse_edges(edges));
                 execute(store, LogicalPlan::new(root), mask.parse().unwrap_or(0))
+            }
+            ["masks", nodes, edges, src] => {
+                let Some((lang, h)) = src.split_once(':') else { return "bad-op".into() };
+                let text = String::from_utf8(unhex(h).unwrap_or_default()).unwrap_or_default();
+                let plan = match translate_bind(lang, &text) {
+                    Ok(p) => p,
+                    Err(e) => return e,
+                };
+                let (ns, es) = (parse_nodes(nodes), parse_edges(edges));
+                let base = execute(crate::opt::build_store(&ns, &es), LogicalPlan::new(plan.root.clone()), 0);
+                let mut differ: Vec<String> = vec![];
+                for mask in 1..8u32 {
+                    let got = execute(crate::opt::build_store(&ns, &es), LogicalPlan::new(plan.root.clone()), mask);
+                    if got != base {
+                        differ.push(mask.to_string());
+                    }
+                }
+                if differ.is_empty() { "same".to_string() } else { format!("differ:{}", differ.join(",")) }
             }
             // development aid (never generated): the s-expression of a text's plan
             ["sx", src] => {
